@@ -2,10 +2,14 @@ package webtransport
 
 import (
 	"encoding/binary"
+	"fmt"
 	"io"
+	"math"
 
 	"github.com/karagenc/socket.io-go/engine.io/parser"
 )
+
+var errFrameTooLarge = fmt.Errorf("webtransport: frame is too large")
 
 type clientOpenPacketData struct {
 	SID string `json:"sid"`
@@ -85,7 +89,11 @@ func nextPacket(r io.Reader) (*parser.Packet, error) {
 			if err != nil {
 				return nil, err
 			}
-			expectedLen = int(binary.BigEndian.Uint32(header[:]))
+			l := binary.BigEndian.Uint64(header[:])
+			if l > math.MaxInt32 {
+				return nil, errFrameTooLarge
+			}
+			expectedLen = int(l)
 			state = ReadPayload
 		case ReadPayload:
 			return parser.DecodeWithLen(r, isBinary, expectedLen)
